@@ -277,6 +277,7 @@ func rtmpSeeds(listener string, port int, transport string, thoroughOnly bool) [
 // ---- SRT ----
 
 const srtCookieOff = 16 + 28
+const srtSocketIDOff = 16 + 24
 
 func srtPacket(cif *srtpacket.CIFHandshake) []byte {
 	p := srtpacket.NewPacket(&net.UDPAddr{IP: net.IPv4(127, 0, 0, 1), Port: 1})
@@ -517,6 +518,12 @@ func moqSeedsFor(open bool) []*Seed {
 			".catalog", string(tok.TokenValue))
 		pubTrack := moqCtl("PUBLISH-track", controlmessage.Publish{RequestID: 2, TrackName: "0", TrackAlias: 1}.Marshal(), 1)
 		cov := func(m Msg) Msg { m.Covered = true; return m }
+		dataMsg := Msg{Name: "data-subgroup", Data: dataSG, Stream: 0}
+		if open {
+			// accepted sessions: the track requests follow the answer to the catalog request
+			// (and, for draft-16, the catalog request follows the answer to CLIENT_SETUP)
+			sub.WaitResp, pub.WaitResp, subTrack.WaitResp, pubTrack.WaitResp, dataMsg.WaitResp = true, true, true, true, true
+		}
 		out = append(out,
 			&Seed{Listener: "moq-quic", Name: prefix + alpn + "-subscribe", Transport: tMoQ, Port: pMoQQUIC, ALPN: alpn, Thorough: true, Open: open,
 				Msgs: []Msg{setup(readURL), sub, subTrack}},
@@ -526,7 +533,7 @@ func moqSeedsFor(open bool) []*Seed {
 						return cov(catMsg)
 					}
 					return catMsg
-				}(), pub, pubTrack, {Name: "data-subgroup", Data: dataSG, Stream: 0}}},
+				}(), pub, pubTrack, dataMsg}},
 		)
 		if vi == 0 {
 			// WebTransport: the path comes from the CONNECT request, SETUP carries no options
